@@ -11,4 +11,40 @@ CHECKS = {
           "modelled; 2-D/3-D block kernels match the N-D closed form by correspondence only (1-D+batch proved). No axioms.",
   "technique": "Coq proof over generated loop-nest IR + exact model/implementation correspondence (vm_compute)",
  },
+ "C01": {
+  "text": "Coq theorem over an arbitrary commutative *-ring: for EVERY expression tree over Conj / + / composition (hence scalar and sign "
+          "overloads, with python's flattening) the operator returned by the modelled _adjoint_linop satisfies <A x,y> = <x,A^H y> with swapped "
+          "shapes, provided each remaining node does; that node hypothesis is itself proved for Identity, Flip, Downsample, Upsample, Resize "
+          "(all shift combinations) and generically for any kernel or partial-bijection gather. The model (adj, shapes, den) is tied to linop.py "
+          "by exact comparison of the serialised A.H object graphs and of values on Gaussian-integer data.",
+  "note": "Trusted: Coq kernel+vm_compute; hand model coq/model/Linop.v (checked against the implementation each run); serialiser. Node hypothesis NOT yet "
+          "proved in Coq for Hstack/Vstack/Diag, Reshape, Transpose, Circshift, Multiply/MatMul (broadcast composite), Sum/Tile, blocks (1-D kernel facts in C09), "
+          "Slice/Embed and the library-backed leaves (FFT, NUFFT, interpolation, wavelet, convolution): for those the complex dot-test oracle on the implementation decides. No axioms.",
+  "technique": "Coq proof by structural induction over a deep embedding of the operator language + exact object-graph / value correspondence",
+ },
+ "C02": {
+  "text": "Coq theorem: every Conj/+/composition tree is linear over the scalar ring (complex a included), given linear nodes; re-indexing, gather and "
+          "finite-sum leaf families proved linear. Determinism and non-mutation are run-time aliasing facts: decided by a byte-snapshot sweep over every "
+          "operator tree (input and captured arrays, after .H/.N are cached), every Prox class and every public array function in three memory layouts.",
+  "note": "Trusted: Coq kernel; functional_extensionality_dep (stdlib axiom, used for linearity of compositions); the snapshot harness. "
+          "No static alias analysis: a mutation on a path the sweep does not execute is not seen.",
+  "technique": "Coq proof (linearity by induction over the deep embedding) + dynamic byte-snapshot purity sweep",
+ },
+ "C03": {
+  "text": "Coq theorems: A*B applies B then A (incl. flattening of nested compositions), A+B / A-B add results, misfitting operands are rejected by the "
+          "constructor model (Compose, Add) and accepted only with the advertised shapes. The constructor/shape model incl. Hstack/Vstack/Diag parameters "
+          "is compared exactly with the implementation on random trees and on a malformed stream; values are compared exactly on integers; the dense matrix of "
+          "each tree is compared with an independent numpy block-matrix assembly.",
+  "note": "Trusted: Coq kernel+vm_compute; hand model Linop.v; the numpy block-matrix reference used as search oracle. Block-row/column/diagonal "
+          "denotation of Hstack/Vstack/Diag is modelled as coded (start/end slices) and validated by correspondence, not yet proved equal to the abstract block matrix.",
+  "technique": "Coq proof over the deep embedding + exact shape/value correspondence + rejection stream",
+ },
+ "C04": {
+  "text": "Coq theorems: every class with the default _normal_linop (all combinators, block operators outside tiling/non-overlap) has A.N = A.H*A exactly; "
+          "Identity and Reshape shortcuts proved; every other shortcut is shown correct whenever the operator is an isometry on its index box. The model of "
+          "_normal_linop (incl. the repaired block side conditions) is compared exactly with the implementation's A.N object graph; A.N x vs A.H(A x) numerically.",
+  "note": "Trusted: Coq kernel+vm_compute; hand model. Isometry of Transpose/Circshift/FFT/tiling blocks is hypothesis in Coq (validated numerically); "
+          "NUFFT Toeplitz normal is only validated to interpolation accuracy (partial).",
+  "technique": "Coq proof over the deep embedding + exact A.N object-graph correspondence",
+ },
 }
